@@ -53,6 +53,8 @@ class SamplerRecorder:
         self.n_decisions = 0
         self.n_ties = 0
         self.kinds = {}
+        self.factor = {}
+        self.configured = None
 
     def __enter__(self):
         rec = self
@@ -79,12 +81,17 @@ class SamplerRecorder:
             blocks = [str(i) for i in range(smp.n_patients)]
         else:
             blocks = [blk_name(i) for i in np.ndindex(tuple(smp.shape_adapted_std))]
-        lo = Fraction(str(smp._mean_acceptation_lower_bound_before_adaptation)).limit_denominator(1000)
-        hi = Fraction(str(smp._mean_acceptation_upper_bound_before_adaptation)).limit_denominator(1000)
+        # window length, target band and factor are the CONFIGURED ones (settings of the run) when known, so that a sampler
+        # that does not honour its configuration is not judged by its own attributes
+        conf = (self.configured or {}).get("ind" if is_ind else "pop", {})
+        lo_f, hi_f = conf.get("band", (smp._mean_acceptation_lower_bound_before_adaptation, smp._mean_acceptation_upper_bound_before_adaptation))
+        lo = Fraction(str(lo_f)).limit_denominator(1000)
+        hi = Fraction(str(hi_f)).limit_denominator(1000)
         den = lo.denominator * hi.denominator // math.gcd(lo.denominator, hi.denominator)
         self.kinds[uid] = type(smp).__name__
+        self.factor[uid] = conf.get("factor", smp._adaptive_std_factor)
         self.events.append({"op": "Create", "name": uid, "kind": "ind" if is_ind else "pop", "blocks": blocks,
-                            "L": int(smp.acceptation_history_length), "lo": int(lo * den), "hi": int(hi * den), "den": den,
+                            "L": int(conf.get("L", smp.acceptation_history_length)), "lo": int(lo * den), "hi": int(hi * den), "den": den,
                             "random_order": bool(getattr(smp, "_random_order_dimension", False)) and not is_ind,
                             "cls": type(smp).__name__})
 
@@ -324,7 +331,7 @@ class SamplerRecorder:
         acc_row = [bool(x) for x in last.reshape(-1).tolist()]
         window_ok = bool(torch.equal(smp.acceptation_history[:-1], hist_before[1:])) and \
             smp.acceptation_history.shape == hist_before.shape
-        f = smp._adaptive_std_factor
+        f = self.factor[uid]
         down = std_before.clone()
         down *= 1 - f
         up = std_before.clone()
@@ -366,10 +373,15 @@ def record_fit(kind, seed, n_iter, sampler_pop="Gibbs", annealing=False, n_ind=6
                directed=False):
     """A real fit (and optionally an MCMC personalization / an extreme-state scenario) under the sampler recorder."""
     rec = SamplerRecorder(directed=directed)
+    # non-default, different adaptation settings for the two sampler families
+    conf = {"pop": {"L": hist_len, "band": (0.2, 0.4), "factor": 0.25}, "ind": {"L": hist_len + 1, "band": (0.3, 0.5), "factor": 0.3}}
+    rec.configured = conf if sampler_pop != "Metropolis-Hastings" else {"ind": conf["ind"]}
     model, data, df = zoo.make(kind, n_ind=n_ind, seed=seed % 7)
     kw = dict(n_iter=n_iter, seed=seed, progress_bar=False, sampler_pop=sampler_pop,
-              sampler_pop_params=dict(acceptation_history_length=hist_len, random_order_dimension=True),
-              sampler_ind_params=dict(acceptation_history_length=hist_len))
+              sampler_pop_params=dict(acceptation_history_length=conf["pop"]["L"], random_order_dimension=True,
+                                      mean_acceptation_rate_target_bounds=list(conf["pop"]["band"]), adaptive_std_factor=conf["pop"]["factor"]),
+              sampler_ind_params=dict(acceptation_history_length=conf["ind"]["L"], mean_acceptation_rate_target_bounds=list(conf["ind"]["band"]),
+                                      adaptive_std_factor=conf["ind"]["factor"]))
     if annealing:
         kw["annealing"] = dict(do_annealing=True, initial_temperature=5.0, n_plateau=3, n_iter=max(2, n_iter // 2), n_iter_frac=None)
     import warnings
@@ -377,6 +389,8 @@ def record_fit(kind, seed, n_iter, sampler_pop="Gibbs", annealing=False, n_ind=6
         warnings.simplefilter("ignore")
         with rec:
             model.fit(data, "mcmc_saem", **kw)
+            # samplers created from here on are not those of the configured fit: they are judged with their own settings
+            rec.configured = None
             if extreme:
                 extreme_scenario(rec, model, seed)
             if perso:
